@@ -18,7 +18,8 @@
 //! schema-compatible replacements (an `Err` from `with_new_children` would be the generator's fault);
 //! the one-level APIs and `exists` have no subquery variant (mapped to the recursive ones there).
 //!
-//! Sensitivity probes: see c42a.rs header (shared list).
+//! Sensitivity probes: see the c42a.rs header (shared list: both are detected by c42b, the BETWEEN
+//! one only by c42b). Findings: see c42a.rs / c42known.rs.
 use crate::c42a::{Shape, api_strategy, bucket, dec_strategy, shape_strategy, shape_to_spec, to_result};
 use crate::c42ref::*;
 use datafusion::arrow::datatypes::{DataType, Field, Schema};
